@@ -807,6 +807,7 @@ pub fn check_main(prop: &str, thorough: bool, seed: u64) -> i32 {
             "probes": agg.probes,
             "probes_stuck_at_zero": zero_probes,
             "distinct_histories": agg.hist.len(),
+            "unlisted_signatures": unknown.iter().map(|(k, v)| (k.clone(), json!(v.len()))).collect::<BTreeMap<String, Value>>(),
             "known_findings_hit": known_hit.iter().map(|(k, v)| (k.clone(), json!(v.0))).collect::<BTreeMap<String, Value>>(),
             "components": {"real": real, "stub": stub},
             "determinism_audit": {"reruns_in_other_process": audit_reruns, "mismatches": audit_mismatch},
